@@ -23,10 +23,16 @@ func main() {
 	case "check":
 		os.Exit(checkCmd(os.Args[2:]))
 	default:
+		if f, ok := extraCmds[os.Args[1]]; ok {
+			f(os.Args[2:])
+			return
+		}
 		fmt.Println("unknown command")
 		os.Exit(2)
 	}
 }
+
+var extraCmds = map[string]func([]string){}
 
 type kvFlag map[string]int
 
@@ -91,3 +97,5 @@ func jobCmd(args []string) {
 	b, _ := json.MarshalIndent(ex.Summary(), "", " ")
 	fmt.Println(string(b))
 }
+
+func init() { extraCmds["conc"] = concCmd }
